@@ -57,6 +57,31 @@ CLAIMED["C03"] = dict(
     technique="Lean 4 proof by simulation of two state machines + differential correspondence",
     design="§5 C03")
 
+CLAIMED["C02"] = dict(
+    text=("Lean theorems C02_trim_contract / C02_trim_reassemble: for all strings and every whitespace predicate the "
+          "context-trimming step (model of _trim_common_context) only trims what is common to target and new text, so "
+          "replacing the trimmed middle reproduces the new text (replaces 'every pair up to a length bound'). Tie: the "
+          "model is compared with the real function exhaustively over all pairs of short strings over {a,b,space,newline,"
+          "*,_,#} and on random pairs every run. The engine clause (all exact unique non-overlapping edits applied, "
+          "accepted text == string replacement, any order) is decided by an independent oracle on generated documents x "
+          "batches x all orders (reading the saved package with the independent reader); its Lean statement about the "
+          "engine model is not proved yet, so for that clause this check gives exploration-level assurance."),
+    note=NOTE_COMMON + "targets are made of real characters only and are unique in both views (also whitespace/marker-"
+         "normalised); str.isspace is a parameter (table compared per run).",
+    technique="Lean 4 proof of the trim contract + exhaustive differential correspondence; oracle-based exploration for the engine clause",
+    design="§5 C02")
+CLAIMED["C04"] = dict(
+    text=("Lean theorems about the reader model (Adeu.Doc.extractText): C04_clean_complete (accepted view of a paragraph = "
+          "formatted segment of every non-deleted run, once, in order, nothing else), C04_layout_is_indexed_layout, "
+          "C04_marker_no_newline. Tie: model == extract_text_from_stream on every generated document, both views. "
+          "Independent oracle: completeness/order of the accepted view, per-character annotation of the raw view, "
+          "listed ids, accept(raw)==clean, flat balanced CriticMarkup, markers never around a line break. The raw-view "
+          "annotation / id clauses are decided by correspondence + oracle (their Lean statements are not proved yet). "
+          "Three open known findings (vertically merged cells, point comments, deleted-only containers)."),
+    note=NOTE_COMMON + "PAGE/NUMPAGES field results and hyperlink text are outside the projection by design (documented).",
+    technique="Lean 4 proof (closed form of the accepted view) + differential correspondence + independent OOXML oracle",
+    design="§5 C04")
+
 PENDING = {
 }
 
